@@ -251,6 +251,29 @@ def rand_joint(rng, n, card, style):
                 p *= conds[v - 1][mi[v - 1]][mi[v]]
             vals.append(p)
         return vals
+    if style == "chain_zeros":
+        # the same chain, but the conditionals contain exact zeros (deterministic transitions for some parent states): the
+        # independencies of the chain still hold, with structural zeros in the marginals P(x, z)
+        first = gen.rand_dist(rng, card[0], "generic")
+        conds = []
+        for v in range(1, n):
+            rows = []
+            for _ in range(card[v - 1]):
+                if rng.random() < .5:
+                    d = [Fraction(0)] * card[v]
+                    d[rng.randrange(card[v])] = Fraction(1)
+                else:
+                    d = gen.rand_dist(rng, card[v], "generic")
+                rows.append(d)
+            conds.append(rows)
+        vals = []
+        for idx in range(size):
+            mi = core.unravel(card, idx)
+            p = first[mi[0]]
+            for v in range(1, n):
+                p *= conds[v - 1][mi[v - 1]][mi[v]]
+            vals.append(p)
+        return vals
     if style == "xor" and n >= 3 and card[:3] == [2, 2, 2]:
         vals = []
         rest = gen.rand_dist(rng, size // 8, "generic") if size > 8 else [Fraction(1)]
@@ -268,7 +291,7 @@ def rand_joint(rng, n, card, style):
 def gen_ci(rng, tier):
     n = rng.randint(2, 4)
     card = [2, 2, 2, 2][:n] if rng.random() < .6 else [rng.choice([2, 3]) for _ in range(n)]
-    style = rng.choice(["product", "chain", "xor", "generic"])
+    style = rng.choice(["product", "chain", "chain_zeros", "chain_zeros", "xor", "generic"])
     vals = rand_joint(rng, n, card, style)
     x, y = rng.sample(range(n), 2)
     rest = [v for v in range(n) if v not in (x, y)]
